@@ -492,6 +492,8 @@ def subscript_load(eng, st, base, sl, node):
     if head == 'pydict':
         iv = eng.ev(sl, st)
         return base.py[iv.py]
+    if head == 'ddict':
+        return ddict_get(eng, st, base, to_int(eng.ev(sl, st)), node)
     raise Unsupported("subscript on %r (line %d)" % (k, getattr(node, 'lineno', 0)))
 
 
@@ -1133,3 +1135,118 @@ def call_opaque(eng, st, fv, args, kwargs, node):
     r = f(fv.t, *[to_real(a) for a in args])
     st.assume(r > 0)
     return vreal(r)
+
+
+# ---------------------------------------------------------------- sorted / defaultdict / counting
+def cnt(eng, st, arr=None):
+    """cnt(a, k, p) = #{q < p : a[q] == k}  (prefix count; per-array defining equations, no matching loop)"""
+    f = eng.uf('cnt', z3.ArraySort(I, I), I, I, I)
+    if arr is None:
+        return f
+    key = 'axioms:cnt:%d' % arr.get_id()
+    if key not in st.ghost:
+        st.ghost[key] = True
+        k, m, n = z3.Int(fresh_name('ck')), z3.Int(fresh_name('cm')), z3.Int(fresh_name('cn'))
+        st.pc.append(z3.ForAll([k], f(arr, k, 0) == 0, patterns=[f(arr, k, 0)]))
+        body = z3.Implies(z3.And(n == m + 1, m >= 0),
+                          f(arr, k, n) == f(arr, k, m) + z3.If(z3.Select(arr, m) == k, 1, 0))
+        try:
+            st.pc.append(z3.ForAll([k, m, n], body, patterns=[z3.MultiPattern(f(arr, k, m), f(arr, k, n))]))
+        except z3.Z3Exception:
+            st.pc.append(z3.ForAll([k, m, n], body))
+        st.pc.append(z3.ForAll([k, m], z3.Implies(m >= 0, f(arr, k, m) >= 0), patterns=[f(arr, k, m)]))
+    return f
+
+
+@model('builtins.sorted')
+def m_sorted(eng, st, args, kw, node):
+    v = args[0]
+    if not (isinstance(v.k, tuple) and v.k[0] == 'list' and v.k[1] == 'int'):
+        raise Unsupported("sorted of %r" % (v.k,))
+    n = eng.list_len(st, v)
+    st.assume(n >= 0)
+    a = eng.list_arr(st, v)
+    out = z3.Const(fresh_name('sorted'), z3.ArraySort(I, I))
+    i, j = z3.Int(fresh_name('i')), z3.Int(fresh_name('j'))
+    if 'key' in kw:
+        return sorted_by_key(eng, st, v, kw, node)
+    if kw:
+        raise Unsupported("sorted keywords")
+    used(eng, "sorted(list of int): fresh list, same length, ascending, same members; an ascending input is returned elementwise unchanged")
+    res = eng.mk_list(st, 'int', n, out)
+    st.assume(z3.ForAll([i, j], z3.Implies(z3.And(0 <= i, i < j, j < n), z3.Select(out, i) <= z3.Select(out, j)),
+                        patterns=[z3.MultiPattern(z3.Select(out, i), z3.Select(out, j))]))
+    w1 = z3.Function(fresh_name('perm'), I, I)
+    w2 = z3.Function(fresh_name('perminv'), I, I)
+    st.assume(z3.ForAll([i], z3.Implies(z3.And(0 <= i, i < n),
+                                        z3.And(0 <= w1(i), w1(i) < n, z3.Select(out, i) == z3.Select(a, w1(i)), w2(w1(i)) == i)),
+                        patterns=[z3.Select(out, i)]))
+    st.assume(z3.ForAll([i], z3.Implies(z3.And(0 <= i, i < n),
+                                        z3.And(0 <= w2(i), w2(i) < n, z3.Select(a, i) == z3.Select(out, w2(i)), w1(w2(i)) == i)),
+                        patterns=[z3.Select(a, i)]))
+    asc = z3.ForAll([i, j], z3.Implies(z3.And(0 <= i, i < j, j < n), z3.Select(a, i) <= z3.Select(a, j)))
+    st.assume(z3.Implies(asc, z3.ForAll([i], z3.Implies(z3.And(0 <= i, i < n), z3.Select(out, i) == z3.Select(a, i)),
+                                         patterns=[z3.Select(out, i)])))
+    return res
+
+
+def sorted_by_key(eng, st, v, kw, node):
+    """sorted(ids, key=f, reverse=True) with f a closure `return table[i]`: stable sort by key, descending."""
+    keyf = kw['key']
+    rev = kw.get('reverse')
+    if keyf.k != 'func' or keyf.py[0] != 'closure':
+        raise Unsupported("sorted key function")
+    fdef = keyf.py[1]
+    # the key function must be `def g(i): return table[i]` with table a local list of reals
+    if not (len(fdef.body) == 1 and isinstance(fdef.body[0], ast.Return) and isinstance(fdef.body[0].value, ast.Subscript)
+            and isinstance(fdef.body[0].value.value, ast.Name)):
+        raise Unsupported("sorted key function shape")
+    table = st.env.get(fdef.body[0].value.value.id)
+    if table is None or not (isinstance(table.k, tuple) and table.k[0] == 'list'):
+        raise Unsupported("sorted key table")
+    descending = rev is not None and z3.is_true(z3.simplify(truth(rev)))
+    used(eng, "sorted(list, key=table lookup, reverse=True): fresh list, a permutation of the input, keys non-increasing (stable)")
+    n = eng.list_len(st, v)
+    a = eng.list_arr(st, v)
+    ta = eng.list_arr(st, table)
+    out = z3.Const(fresh_name('sortedk'), z3.ArraySort(I, I))
+    res = eng.mk_list(st, 'int', n, out)
+    i, j = z3.Int(fresh_name('i')), z3.Int(fresh_name('j'))
+    ki, kj = z3.Select(ta, z3.Select(out, i)), z3.Select(ta, z3.Select(out, j))
+    st.assume(z3.ForAll([i, j], z3.Implies(z3.And(0 <= i, i < j, j < n), (ki >= kj) if descending else (ki <= kj)),
+                        patterns=[z3.MultiPattern(z3.Select(out, i), z3.Select(out, j))]))
+    w1 = z3.Function(fresh_name('perm'), I, I)
+    w2 = z3.Function(fresh_name('perminv'), I, I)
+    st.assume(z3.ForAll([i], z3.Implies(z3.And(0 <= i, i < n),
+                                        z3.And(0 <= w1(i), w1(i) < n, z3.Select(out, i) == z3.Select(a, w1(i)), w2(w1(i)) == i)),
+                        patterns=[z3.Select(out, i)]))
+    st.assume(z3.ForAll([i], z3.Implies(z3.And(0 <= i, i < n),
+                                        z3.And(0 <= w2(i), w2(i) < n, z3.Select(a, i) == z3.Select(out, w2(i)), w1(w2(i)) == i)),
+                        patterns=[z3.Select(a, i)]))
+    return res
+
+
+@model('collections.defaultdict')
+def m_defaultdict(eng, st, args, kw, node):
+    """defaultdict(list) keyed by ints: a map key -> list reference (0 = no entry yet)"""
+    tn = eng.resolve_dotted(node.args[0]) if node.args else None
+    if tn != ['list']:
+        raise Unsupported("defaultdict factory")
+    used(eng, "collections.defaultdict(list) keyed by ints: a missing key yields a fresh empty list which is stored under the key")
+    r = eng.new_ref(st)
+    st.heap.wr('el:ref', r, z3.K(I, z3.IntVal(0)))
+    return Val(('ddict', 'int'), r)
+
+
+def ddict_get(eng, st, base, key, node):
+    tbl = st.heap.rd('el:ref', base.t)
+    if st.spec:     # contract clauses read the table without creating entries (0 = no entry)
+        return Val(('list', 'int'), z3.Select(tbl, key))
+    eng.check_store(st, base.t, None, node, 'defaultdict-entry')
+    cur = z3.Select(tbl, key)
+    fresh = eng.new_ref(st)
+    st.heap.wr('len', fresh, z3.IntVal(0))
+    used_ref = z3.If(cur == 0, fresh, cur)
+    st.heap.wr('el:ref', base.t, z3.Store(tbl, key, used_ref))
+    st.assume(z3.And(cur >= 0, cur < fresh))
+    return Val(('list', 'int'), used_ref)
